@@ -117,6 +117,9 @@ def gen_cases(tier):
 
 
 PUBLIC_SCRIPTS = [
+    ["getbulk_5", "fetch", "getbulk_default"],
+    ["getbulk_5", "getbulk_default", "get_many_dup", "getbulk"],
+    ["get_many_same", "get_many_dup", "get"],
     ["get", "get_many_gen"],
     ["fetch", "get"],
     ["getbulk", "getnext"],
@@ -150,10 +153,18 @@ def run_public(case):
             expected.append(Call("get", [histories.OIDS["sys"]]))
         elif op == "get_many_gen":
             expected.append(Call("get_many", [histories.OIDS["big"], histories.OIDS["sys"]]))
+        elif op == "get_many_dup":
+            expected.append(Call("get_many", [histories.OIDS["sys"], histories.OIDS["big"], histories.OIDS["sys"]]))
+        elif op == "get_many_same":
+            expected.append(Call("get_many", [histories.OIDS["big"], histories.OIDS["big"]]))
         elif op == "getnext":
             expected.append(Call("getnext", [BASE]))
         elif op == "getbulk":
             expected.append(Call("getbulk", [BASE], max_rep=eff))
+        elif op == "getbulk_5":
+            expected.append(Call("getbulk", [BASE], max_rep=5))
+        elif op == "getbulk_default":
+            expected.append(Call("getbulk", [BASE], max_rep=maxrep_session))
         elif op == "fetch":
             if cfg.version != "v1" and case["allow_bulk"]:
                 expected.append(Call("getbulk", [BASE], max_rep=maxrep_session))
@@ -173,10 +184,17 @@ def run_public(case):
                     o = drivers.call(s.get, rb.oid_str(histories.OIDS["sys"]))
                 elif op == "get_many_gen":
                     o = drivers.call(s.get_many, (rb.oid_str(x) for x in (histories.OIDS["big"], histories.OIDS["sys"])))
+                elif op in ("get_many_dup", "get_many_same"):
+                    names = ("sys", "big", "sys") if op == "get_many_dup" else ("big", "big")
+                    o = drivers.call(s.get_many, [rb.oid_str(histories.OIDS[x]) for x in names])
                 elif op == "getnext":
                     o = drivers.call(lambda: list(s.getnext(rb.oid_str(BASE))))
                 elif op == "getbulk":
                     o = drivers.call(lambda: list(s.getbulk(rb.oid_str(BASE), case["maxrep"])))
+                elif op == "getbulk_5":
+                    o = drivers.call(lambda: list(s.getbulk(rb.oid_str(BASE), 5)))
+                elif op == "getbulk_default":
+                    o = drivers.call(lambda: list(s.getbulk(rb.oid_str(BASE))))
                 else:
                     o = drivers.call(lambda: list(s.fetch(rb.oid_str(BASE))))
                 if o.kind != "ok":
@@ -192,10 +210,17 @@ def run_public(case):
                     await s.get(rb.oid_str(histories.OIDS["sys"]))
                 elif op == "get_many_gen":
                     await s.get_many(rb.oid_str(x) for x in (histories.OIDS["big"], histories.OIDS["sys"]))
+                elif op in ("get_many_dup", "get_many_same"):
+                    names = ("sys", "big", "sys") if op == "get_many_dup" else ("big", "big")
+                    await s.get_many([rb.oid_str(histories.OIDS[x]) for x in names])
                 elif op == "getnext":
                     [x async for x in s.getnext(rb.oid_str(BASE))]
                 elif op == "getbulk":
                     [x async for x in s.getbulk(rb.oid_str(BASE), case["maxrep"])]
+                elif op == "getbulk_5":
+                    [x async for x in s.getbulk(rb.oid_str(BASE), 5)]
+                elif op == "getbulk_default":
+                    [x async for x in s.getbulk(rb.oid_str(BASE))]
                 else:
                     [x async for x in s.fetch(rb.oid_str(BASE))]
 
